@@ -1,2 +1,277 @@
-/-! placeholder driver (property C01 not built yet) -/
-def main : IO Unit := IO.println "bad-op"
+import LlgoVerif.Util
+import LlgoVerif.Model.CoreGo
+import LlgoVerif.Model.OrderFix
+/-! Line-protocol driver for C01.
+    `run FUEL <program s-expression>`  ->  `ok <hex of output bytes> normal|exit:N|panic:<hex>` | `stuck <msg>` | `timeout`
+    `fix <block>`                      ->  the order the model of fixSSAOrderBlock produces (see Model/OrderFix.lean)
+    The s-expression grammar is documented in /verif/design/C01.md and produced by /verif/harness/c01/gen.py. -/
+open LlgoVerif LlgoVerif.Util LlgoVerif.CoreGo
+
+inductive Sexp where
+  | atom (s : String)
+  | list (l : List Sexp)
+deriving Inhabited
+
+partial def parseSexps (cs : List Char) (acc : List Sexp) : Option (List Sexp × List Char) :=
+  match cs with
+  | [] => some (acc.reverse, [])
+  | ' ' :: rest => parseSexps rest acc
+  | '(' :: rest =>
+    match parseSexps rest [] with
+    | some (items, rest') => parseSexps rest' (.list items :: acc)
+    | none => none
+  | ')' :: rest => some (acc.reverse, rest)
+  | _ =>
+    let tok := cs.takeWhile (fun c => c != ' ' && c != '(' && c != ')')
+    parseSexps (cs.drop tok.length) (.atom (String.ofList tok) :: acc)
+
+abbrev P := Except String
+
+def fail {α : Type} (msg : String) : P α := .error msg
+
+def pNat : Sexp → P Nat
+  | .atom s => match s.toNat? with
+    | some n => pure n
+    | none => fail s!"nat expected: {s}"
+  | _ => fail "nat expected"
+
+def pInt : Sexp → P Int
+  | .atom s => match s.toInt? with
+    | some n => pure n
+    | none => fail s!"int expected: {s}"
+  | _ => fail "int expected"
+
+def pBool : Sexp → P Bool
+  | .atom "1" => pure true
+  | .atom "0" => pure false
+  | _ => fail "bool expected"
+
+def pName : Sexp → P String
+  | .atom "-" => pure ""
+  | .atom s => pure s
+  | _ => fail "name expected"
+
+def pOptNat : Sexp → P (Option Nat)
+  | .atom "-" => pure none
+  | s => do pure (some (← pNat s))
+
+def pKind : Sexp → P IntKind
+  | .atom "int" => pure .int | .atom "i8" => pure .i8 | .atom "i16" => pure .i16 | .atom "i32" => pure .i32
+  | .atom "i64" => pure .i64 | .atom "uint" => pure .uint | .atom "u8" => pure .u8 | .atom "u16" => pure .u16
+  | .atom "u32" => pure .u32 | .atom "u64" => pure .u64 | .atom "uptr" => pure .uptr
+  | _ => fail "int kind expected"
+
+partial def pTy : Sexp → P Ty
+  | .atom "bool" => pure .bool
+  | .atom "str" => pure .str
+  | .atom "rterr" => pure .rtErr
+  | .list [.atom "int", k] => do pure (.int (← pKind k))
+  | .list [.atom "named", n] => do pure (.named (← pNat n))
+  | .list [.atom "ptr", t] => do pure (.ptr (← pTy t))
+  | .list [.atom "slice", t] => do pure (.slice (← pTy t))
+  | .list [.atom "arr", n, t] => do pure (.arr (← pNat n) (← pTy t))
+  | .list [.atom "func", n] => do pure (.func (← pNat n))
+  | _ => fail "type expected"
+
+def pBinOp : Sexp → P BinOp
+  | .atom "add" => pure .add | .atom "sub" => pure .sub | .atom "mul" => pure .mul | .atom "quo" => pure .quo
+  | .atom "rem" => pure .rem | .atom "and" => pure .and | .atom "or" => pure .or | .atom "xor" => pure .xor
+  | .atom "andnot" => pure .andNot | .atom "shl" => pure .shl | .atom "shr" => pure .shr | .atom "eq" => pure .eq
+  | .atom "ne" => pure .ne | .atom "lt" => pure .lt | .atom "le" => pure .le | .atom "gt" => pure .gt
+  | .atom "ge" => pure .ge
+  | _ => fail "binary operator expected"
+
+def pUnOp : Sexp → P UnOp
+  | .atom "neg" => pure .neg | .atom "not" => pure .not | .atom "compl" => pure .compl
+  | _ => fail "unary operator expected"
+
+def pSeq : Sexp → P SeqKind
+  | .atom "arr" => pure .arr | .atom "slice" => pure .slice | .atom "str" => pure .str | .atom "ptrarr" => pure .ptrArr
+  | _ => fail "sequence kind expected"
+
+def pBytes : Sexp → P (List Nat)
+  | .atom h => match unhex h with
+    | some bs => pure (bs.map (·.toNat))
+    | none => fail "hex expected"
+  | _ => fail "hex expected"
+
+mutual
+partial def pExpr : Sexp → P Expr
+  | .atom "_" => pure .blank
+  | .list [.atom "i", k, v] => do pure (.intLit (← pKind k) (← pInt v))
+  | .list [.atom "b", b] => do pure (.boolLit (← pBool b))
+  | .list [.atom "s", h] => do pure (.strLit (← pBytes h))
+  | .list [.atom "nil", .atom "ptr"] => pure (.nil .ptr)
+  | .list [.atom "nil", .atom "slice"] => pure (.nil .slice)
+  | .list [.atom "nil", .atom "iface"] => pure (.nil .iface)
+  | .list [.atom "nil", .atom "func"] => pure (.nil .func)
+  | .list [.atom "v", x] => do pure (.var (← pNat x))
+  | .list [.atom "g", x] => do pure (.glob (← pNat x))
+  | .list [.atom "bin", op, a, b] => do pure (.bin (← pBinOp op) (← pExpr a) (← pExpr b))
+  | .list [.atom "un", op, a] => do pure (.un (← pUnOp op) (← pExpr a))
+  | .list [.atom "land", a, b] => do pure (.land (← pExpr a) (← pExpr b))
+  | .list [.atom "lor", a, b] => do pure (.lor (← pExpr a) (← pExpr b))
+  | .list [.atom "conv", k, a] => do pure (.conv (← pKind k) (← pExpr a))
+  | .list [.atom "strofbytes", a] => do pure (.strOfBytes (← pExpr a))
+  | .list [.atom "bytesofstr", a] => do pure (.bytesOfStr (← pExpr a))
+  | .list [.atom "strofrune", a] => do pure (.strOfRune (← pExpr a))
+  | .list [.atom "fref", f] => do pure (.funcRef (← pNat f))
+  | .list [.atom "flit", f] => do pure (.funcLit (← pNat f))
+  | .list (.atom "call" :: f :: args) => do pure (.call (← pNat f) (← pExprs args))
+  | .list (.atom "callv" :: f :: args) => do pure (.callv (← pExpr f) (← pExprs args))
+  | .list (.atom "mcall" :: r :: t :: n :: args) => do pure (.mcall (← pExpr r) (← pTy t) (← pName n) (← pExprs args))
+  | .list (.atom "icall" :: r :: n :: args) => do pure (.icall (← pExpr r) (← pName n) (← pExprs args))
+  | .list (.atom "struct" :: fs) => do pure (.structLit (← pExprs fs))
+  | .list (.atom "arr" :: es) => do pure (.arrLit (← pExprs es))
+  | .list (.atom "slice" :: es) => do pure (.sliceLit (← pExprs es))
+  | .list [.atom "make", z, l] => do pure (.make (← pExpr z) (← pExpr l) none)
+  | .list [.atom "make", z, l, c] => do pure (.make (← pExpr z) (← pExpr l) (some (← pExpr c)))
+  | .list [.atom "new", e] => do pure (.new (← pExpr e))
+  | .list [.atom "addr", e] => do pure (.addr (← pExpr e))
+  | .list [.atom "deref", e] => do pure (.deref (← pExpr e))
+  | .list [.atom "sel", e, t, n] => do pure (.sel (← pExpr e) (← pTy t) (← pName n))
+  | .list [.atom "index", k, e, i] => do pure (.index (← pSeq k) (← pExpr e) (← pExpr i))
+  | .list [.atom "sliceof", k, e, lo, hi, mx] => do
+    pure (.sliceOf (← pSeq k) (← pExpr e) (← pOptExpr lo) (← pOptExpr hi) (← pOptExpr mx))
+  | .list [.atom "len", k, e] => do pure (.len (← pSeq k) (← pExpr e))
+  | .list [.atom "cap", k, e] => do pure (.cap (← pSeq k) (← pExpr e))
+  | .list (.atom "append" :: s :: es) => do pure (.append (← pExpr s) (← pExprs es))
+  | .list [.atom "appends", s, t] => do pure (.appendSlice (← pExpr s) (← pExpr t))
+  | .list [.atom "copy", d, s] => do pure (.copy (← pExpr d) (← pExpr s))
+  | .list [.atom "toiface", t, e] => do pure (.toIface (← pTy t) (← pExpr e))
+  | .list [.atom "assert", e, t, two] => do pure (.assert (← pExpr e) (← pTy t) (← pBool two))
+  | .list [.atom "asserti", e, n, two] => do pure (.assertI (← pExpr e) (← pNat n) (← pBool two))
+  | .list [.atom "recover"] => pure .recover
+  | .list (.atom h :: _) => fail s!"expression expected, got ({h} …)"
+  | _ => fail "expression expected"
+partial def pExprs : List Sexp → P (List Expr)
+  | [] => pure []
+  | e :: es => do pure ((← pExpr e) :: (← pExprs es))
+partial def pOptExpr : Sexp → P (Option Expr)
+  | .atom "-" => pure none
+  | e => do pure (some (← pExpr e))
+end
+
+def pList {α : Type} (f : Sexp → P α) : Sexp → P (List α)
+  | .list l => l.mapM f
+  | _ => fail "list expected"
+
+def pTyPat : Sexp → P TyPat
+  | .atom "nil" => pure .nil
+  | .list [.atom "ty", t] => do pure (.ty (← pTy t))
+  | .list [.atom "iface", n] => do pure (.iface (← pNat n))
+  | _ => fail "type pattern expected"
+
+mutual
+partial def pStmt : Sexp → P Stmt
+  | .list [.atom "decl", xs, es] => do pure (.decl (← pList pNat xs) (← pList pExpr es))
+  | .list [.atom "assign", ls, es] => do pure (.assign (← pList pExpr ls) (← pList pExpr es))
+  | .list [.atom "opassign", op, l, e] => do pure (.opAssign (← pBinOp op) (← pExpr l) (← pExpr e))
+  | .list [.atom "expr", e] => do pure (.exprS (← pExpr e))
+  | .list (.atom "print" :: nl :: es) => do pure (.print (← pBool nl) (← pExprs es))
+  | .list (.atom "block" :: ss) => do pure (.block (← pStmts ss))
+  | .list [.atom "if", .list ini, c, .list t, .list e] => do
+    pure (.ite (← pStmts ini) (← pExpr c) (← pStmts t) (← pStmts e))
+  | .list [.atom "for", lbl, .list ini, c, .list post, .list body, ivs] => do
+    pure (.loop (← pName lbl) (← pStmts ini) (← pOptExpr c) (← pStmts post) (← pStmts body) (← pList pNat ivs))
+  | .list [.atom "rangeint", lbl, x, n, .list body] => do
+    pure (.rangeInt (← pName lbl) (← pOptNat x) (← pExpr n) (← pStmts body))
+  | .list [.atom "rangeseq", lbl, k, kx, vx, e, .list body] => do
+    pure (.rangeSeq (← pName lbl) (← pSeq k) (← pOptNat kx) (← pOptNat vx) (← pExpr e) (← pStmts body))
+  | .list [.atom "rangefunc", lbl, xs, f, body] => do
+    pure (.rangeFunc (← pName lbl) (← pList pNat xs) (← pExpr f) (← pNat body))
+  | .list (.atom "switch" :: lbl :: .list ini :: tag :: cases) => do
+    pure (.switch (← pName lbl) (← pStmts ini) (← pOptExpr tag) (← pCases cases))
+  | .list (.atom "tswitch" :: lbl :: x :: e :: cases) => do
+    pure (.tswitch (← pName lbl) (← pOptNat x) (← pExpr e) (← pTCases cases))
+  | .list [.atom "break", lbl] => do pure (.brk (← pName lbl))
+  | .list [.atom "continue", lbl] => do pure (.cont (← pName lbl))
+  | .list (.atom "return" :: es) => do pure (.ret (← pExprs es))
+  | .list (.atom "defer" :: f :: args) => do pure (.defer (← pExpr f) (← pExprs args))
+  | .list [.atom "panic", e] => do pure (.panic (← pExpr e))
+  | .list [.atom "exit", e] => do pure (.exit (← pExpr e))
+  | .list (.atom h :: _) => fail s!"statement expected, got ({h} …)"
+  | _ => fail "statement expected"
+partial def pStmts : List Sexp → P (List Stmt)
+  | [] => pure []
+  | s :: ss => do pure ((← pStmt s) :: (← pStmts ss))
+partial def pCases : List Sexp → P (List SwCase)
+  | [] => pure []
+  | .list [.atom "case", d, es, .list body, fall] :: rest => do
+    pure (.mk (← pBool d) (← pList pExpr es) (← pStmts body) (← pBool fall) :: (← pCases rest))
+  | _ => fail "case expected"
+partial def pTCases : List Sexp → P (List TsCase)
+  | [] => pure []
+  | .list [.atom "tcase", d, pats, u, .list body] :: rest => do
+    pure (.mk (← pBool d) (← pList pTyPat pats) (← pBool u) (← pStmts body) :: (← pTCases rest))
+  | _ => fail "tcase expected"
+end
+
+def pField : Sexp → P (String × Ty × Bool)
+  | .list [n, t, e] => do pure (← pName n, ← pTy t, ← pBool e)
+  | _ => fail "field expected"
+
+def pTypeDecl : Sexp → P TypeDecl
+  | .list [.atom "type", n, .list (.atom "struct" :: fs)] => do pure ⟨← pName n, .struct (← fs.mapM pField)⟩
+  | .list [.atom "type", n, .list (.atom "iface" :: ms)] => do pure ⟨← pName n, .iface (← ms.mapM pName)⟩
+  | .list [.atom "type", n, .list [.atom "basic", t]] => do pure ⟨← pName n, .basic (← pTy t)⟩
+  | _ => fail "type declaration expected"
+
+def pMethod : Sexp → P MethodDecl
+  | .list [.atom "method", tid, n, p, f] => do pure ⟨← pNat tid, ← pName n, ← pBool p, ← pNat f⟩
+  | _ => fail "method expected"
+
+def pFunc : Sexp → P FuncDecl
+  | .list [.atom "func", n, ps, rs, ri, .list body] => do
+    pure ⟨← pName n, ← pList pNat ps, ← pList pNat rs, ← pList pExpr ri, ← pStmts body⟩
+  | _ => fail "func expected"
+
+def pRBody : Sexp → P RangeBody
+  | .list [.atom "rbody", xs, lbl, .list body] => do pure ⟨← pList pNat xs, ← pName lbl, ← pStmts body⟩
+  | _ => fail "rbody expected"
+
+def pProgram : Sexp → P Program
+  | .list [.atom "program", .list (.atom "types" :: ts), .list (.atom "methods" :: ms), .list (.atom "funcs" :: fs),
+           .list (.atom "rbodies" :: rbs), .list (.atom "globals" :: gs), .list [.atom "main", m]] => do
+    pure { types := (← ts.mapM pTypeDecl).toArray, methods := ← ms.mapM pMethod, funcs := (← fs.mapM pFunc).toArray,
+           rbodies := (← rbs.mapM pRBody).toArray, globals := ← pExprs gs, main := ← pNat m }
+  | _ => fail "program expected"
+
+def hexNat (bs : List Nat) : String := hex (bs.map UInt8.ofNat)
+
+def showOutcome (o : Outcome) : String :=
+  let t := match o.term with
+    | .normal => "normal"
+    | .exit c => s!"exit:{c}"
+    | .panic m => "panic:" ++ hexNat m
+  "ok " ++ hexNat o.out.toList ++ " " ++ t
+
+def handleRun (fuel : Nat) (items : List Sexp) : String :=
+  match items with
+  | [sx] =>
+    match pProgram sx with
+    | .error e => "bad-program " ++ e
+    | .ok prog =>
+      match CoreGo.run prog fuel with
+      | none => "timeout"
+      | some (.error m) => "stuck " ++ m
+      | some (.ok o) => showOutcome o
+  | _ => "bad-op"
+
+/-- `fix K1 K2 …` : see `OrderFix.parseInstr` for the instruction syntax -/
+def handleFix (toks : List String) : String :=
+  match toks.mapM OrderFix.parseInstr with
+  | some blk => " ".intercalate ((OrderFix.fixBlock blk).map OrderFix.showInstr)
+  | none => "bad-op"
+
+def handle (line : String) : String :=
+  match line.toList with
+  | 'r' :: 'u' :: 'n' :: ' ' :: rest =>
+    let fuelS := rest.takeWhile (· != ' ')
+    match (String.ofList fuelS).toNat?, parseSexps (rest.drop fuelS.length) [] with
+    | some fuel, some (items, []) => handleRun fuel items
+    | _, _ => "bad-op"
+  | 'f' :: 'i' :: 'x' :: rest => handleFix (fields (String.ofList rest))
+  | _ => "bad-op"
+
+def main : IO Unit := lineLoop handle
